@@ -1292,17 +1292,17 @@ func (w *Writer) buildRZSWBoundsCheck(handle ir.ExpressionHandle) (string, bool)
 				if int(k.Index) < len(w.currentFunction.Expressions) {
 					indexExpr := &w.currentFunction.Expressions[k.Index]
 					if lit, ok := indexExpr.Kind.(ir.Literal); ok {
-						var indexVal uint32
+						// A negative literal is out of bounds: it must not be
+						// read as index 0 (cf. accessNeedsCheck).
 						switch v := lit.Value.(type) {
 						case ir.LiteralI32:
-							if int32(v) >= 0 {
-								indexVal = uint32(v)
+							if int32(v) >= 0 && uint32(v) < length {
+								needsCheck = false
 							}
 						case ir.LiteralU32:
-							indexVal = uint32(v)
-						}
-						if indexVal < length {
-							needsCheck = false
+							if uint32(v) < length {
+								needsCheck = false
+							}
 						}
 					}
 				}
